@@ -114,7 +114,7 @@ EXTRA={
             '//@ ensures [C04] options.seen: gHashOptions == options',
             '//@ requires [C13] samelen: len(values) >= len(fieldNames)'],
  'getKey': ['//@ ensures free strsize: len(val) <= 536870912', '//@ ensures [C07,C06] readonly: !mutated'],
- 'getKeyBytes': ['//@ ensures free strsize: len(val) <= 536870912'],
+ 'getKeyBytes': ['//@ ensures free strsize: len(val) <= 536870912', '//@ ensures [C07,C06] readonly: !mutated'],
  'setRange': ['//@ requires [C13,C02] offset.range: 0 <= offset && offset <= 536870912 && len(substring) <= 536870912 - offset'],
  'setHashTableFields': ['//@ requires [C13] samelen: len(values) >= len(fieldNames)'],
  'deleteHashTableFields': ['//@ loop "for _, fieldName := range fieldNames" invariant [C04] gone: allsel(i, 0, ri1, !m.vdom[fieldNames[i]])',
